@@ -12,8 +12,11 @@ PAGES = [
     ('<p>café naïve</p>'.encode('latin-1'), '<p>café changed</p>'.encode('latin-1')),
     (b'', b'<p>now something</p>'),
     (b'<p>same</p>', b'<p>same</p>'),
+    # the document names another charset than the response header: the header wins
+    ('<meta charset="windows-1251"><p>\u043f\u0440\u0438\u0432\u0435\u0442 old</p>'.encode('koi8-r'),
+     '<meta http-equiv="Content-Type" content="text/html; charset=iso-8859-5"><p>\u043f\u0440\u0438\u0432\u0435\u0442 new</p>'.encode('koi8-r')),
 ]
-CHARSETS = ['text/html; charset=utf-8', 'text/html; charset=iso-8859-1', 'text/html', 'TEXT/HTML; Charset=UTF-8',
+CHARSETS = ['text/html; charset=koi8-r', 'text/html; charset=utf-8', 'text/html; charset=iso-8859-1', 'text/html', 'TEXT/HTML; Charset=UTF-8',
             'application/xhtml+xml; charset=utf-8']
 OPTIONS = {
     'html_token': [[], [('include', 'all')], [('include', 'insertions')], [('include', 'deletions')], [('include', 'combined')],
@@ -41,8 +44,18 @@ def library_result(df, differ, case):
         headers, body = sc.side_content(case, df, side)
         vals = {side + '_url': params[side], side + '_body': body, side + '_headers': headers}
         if side + '_text' in sig.parameters:
-            vals[side + '_text'] = df._decode_body(sc.FakeResp(headers, body), side,
-                                                   raise_if_binary=not params.get('ignore_decoding_errors', False))
+            # decoded with the charset the response declares (independent reference of the documented precedence, see c12)
+            from props import c12
+            enc = c12.ref_encoding(dict(headers.items()), body)
+            try:
+                text = body.decode(enc, errors='replace')
+            except (LookupError, UnicodeError):
+                text = body.decode('utf-8', errors='replace')
+            text = text.replace('\x00', '\ufffd')
+            if text and not params.get('ignore_decoding_errors', False) and text.count('\ufffd') / len(text) > 0.25:
+                from web_monitoring_diff.exceptions import UndecodableContentError
+                raise UndecodableContentError('undecodable')
+            vals[side + '_text'] = text
         for k, v in vals.items():
             if k in sig.parameters:
                 kwargs[k] = v
@@ -110,9 +123,18 @@ def gen_cases(tier, rng):
         for (pa, pb), cs in itertools.product(PAGES, CHARSETS):
             for opt in opts:
                 for inj in INJECT:
-                    if tier == 'quick' and rng.random() > 0.06 and not (opt == [] and cs == CHARSETS[0] and pa == PAGES[0][0]):
+                    if tier == 'quick' and rng.random() > 0.06 and not (opt == [] and cs in CHARSETS[:2] and pa in (PAGES[0][0], PAGES[-1][0])):
                         continue
-                    raw = list(inj[:1]) + [('a', 'http://site.test/a')] + list(opt) + list(inj[1:]) + [('b', 'https://site.test/b')]
+                    order = rng.randrange(4)
+                    qa, qb = ('a', 'http://site.test/a'), ('b', 'https://site.test/b')
+                    if order == 0:
+                        raw = list(inj[:1]) + [qa] + list(opt) + list(inj[1:]) + [qb]
+                    elif order == 1:
+                        raw = [qb] + list(opt) + list(inj) + [qa]
+                    elif order == 2:
+                        raw = list(opt) + [qb, qa] + list(inj)
+                    else:
+                        raw = [('a', 'http://ignored.test/first')] + list(inj) + [qb, qa] + list(opt)
                     up = {'http://site.test/a': sc.ok_up(pa, cs), 'https://site.test/b': sc.ok_up(pb, cs, extra=[('X-Served-By', 'b')])}
                     cases.append({'differ': differ, 'raw_query': raw, 'upstream': up, 'files': {}, 'differ_mode': 'real'})
     # stubbed differs: only the argument binding matters; includes a differ result that sets its own "type"
